@@ -363,22 +363,23 @@ def jobs(tier, seed):
     out = []
     for i, sl in enumerate(chunks(SPELL_ALPHA, 8)):
         out.append(('spell-strings-%d' % i, 'job_spell_strings', (sl,)))
-    step = 0x1000
-    for lo in range(0, 0x10000, step):
-        out.append(('spell-bmp-%04x' % lo, 'job_spell_codepoints', ([(lo, lo + step)],)))
+    for lo in range(0, 0x10000, 0x2000):
+        out.append(('spell-bmp-%04x' % lo, 'job_spell_codepoints', ([(lo, lo + 0x2000)],)))
     out.append(('spell-astral', 'job_spell_codepoints', ([(cp, cp + 1) for cp in ASTRAL],)))
     wide_all = tier == 'thorough'
-    for lo in range(0, 0x10000, 0x800):
-        out.append(('escape-%04x' % lo, 'job_escapes', ([(lo, lo + 0x800)], wide_all or lo < 0x3000)))
+    cuts = [0, 0x80, 0x100, 0x200, 0x300, 0x1000, 0x2000] + list(range(0x3000, 0x10001, 0x1000))
+    for lo, hi in zip(cuts, cuts[1:]):
+        out.append(('escape-%04x' % lo, 'job_escapes', ([(lo, hi)], wide_all or lo < 0x3000)))
     out.append(('escape-astral', 'job_escapes', ([(cp, cp + 1) for cp in ASTRAL], True)))
     maxlen = 4 if tier == 'quick' else 5
-    for i, sl in enumerate(chunks(BODY_ALPHA, 6 if tier == 'quick' else 18)):
+    for i, sl in enumerate(chunks(BODY_ALPHA, 9 if tier == 'quick' else 18)):
         out.append(('body-%d' % i, 'job_bodies', (sl, maxlen)))
     for lo in range(0, 10 ** 5, 25000):
         out.append(('int-small-%d' % lo, 'job_small_ints', (lo, lo + 25000)))
     ks = list(range(6, MAX_K + 1)) if tier == 'thorough' else sorted(set(range(6, 121)) | set(range(6, MAX_K + 1, 7)) | {MAX_K})
-    for i, sl in enumerate(chunks(ks, 8)):
-        out.append(('int-big-%d' % i, 'job_big_ints', (sl[::-1] if i % 2 else sl,)))
+    nj = 4 if tier == 'quick' else 8
+    for i in range(nj):
+        out.append(('int-big-%d' % i, 'job_big_ints', (ks[i::nj],)))      # strided: equal shares of the long numerals
     for i, sl in enumerate(chunks(WHOLE, 6)):
         out.append(('decimal-%d' % i, 'job_decimals', (sl,)))
     out.append(('words', 'job_words', ()))
